@@ -193,6 +193,7 @@ func c18FuncName(p *c18Pkg, fd *ast.FuncDecl) string {
 type C18Scan struct {
 	Vars   []string // every package-level variable
 	Writes []string // "func -> var" outside init-time code
+	Escapes []string // "func => var": a reference into package-level state is stored into an object (composite literal, field, element) outside init-time code
 	Notes  []string
 	Errs   int
 }
@@ -586,6 +587,94 @@ func c18ScanRepo(root string) (*C18Scan, error) {
 		for g := range fn.writes {
 			out.Writes = append(out.Writes, fn.name+" -> "+g)
 		}
+	}
+	// escapes: a non-init function stores a reference into package-level state (the variable itself if it is a pointer /
+	// slice / map, its address, or a reference-typed element of it) into another object: a composite-literal field or
+	// an assignment whose target is a field, element or dereference.  Such an object then shares that state with every
+	// other instance built the same way, and writes through the instance (which the write scan attributes to the
+	// instance) are writes to shared state.
+	for _, k := range order {
+		fn := funcs[k]
+		if initTime[fn.name] {
+			continue
+		}
+		info := fn.pkg.info
+		refToGlobal := func(e ast.Expr) string {
+			addr := false
+			for {
+				if pe, ok := e.(*ast.ParenExpr); ok {
+					e = pe.X
+					continue
+				}
+				if u, ok := e.(*ast.UnaryExpr); ok && u.Op == token.AND {
+					e, addr = u.X, true
+					continue
+				}
+				break
+			}
+			root, _ := c18Root(info, e)
+			if root == nil {
+				return ""
+			}
+			o := info.Uses[root]
+			if o == nil || !c18IsPkgVar(o) {
+				return ""
+			}
+			if !addr {
+				tv, ok := info.Types[e]
+				if !ok || tv.Type == nil {
+					return ""
+				}
+				switch tv.Type.Underlying().(type) {
+				case *types.Pointer, *types.Slice, *types.Map:
+				default:
+					return ""
+				}
+			}
+			return c18VarName(o)
+		}
+		rec := func(e ast.Expr) {
+			if g := refToGlobal(e); g != "" {
+				out.Escapes = append(out.Escapes, fn.name+" => "+g)
+			}
+		}
+		ast.Inspect(fn.decl.Body, func(n ast.Node) bool {
+			switch x := n.(type) {
+			case *ast.CompositeLit:
+				for _, el := range x.Elts {
+					if kv, ok := el.(*ast.KeyValueExpr); ok {
+						rec(kv.Value)
+					} else {
+						rec(el)
+					}
+				}
+			case *ast.AssignStmt:
+				if len(x.Lhs) == len(x.Rhs) {
+					for i, l := range x.Lhs {
+						switch l.(type) {
+						case *ast.SelectorExpr, *ast.IndexExpr, *ast.StarExpr:
+							if root, _ := c18Root(info, l); root != nil {
+								if o := info.Uses[root]; o != nil && c18IsPkgVar(o) {
+									continue // a write to package state: reported by the write scan
+								}
+							}
+							rec(x.Rhs[i])
+						}
+					}
+				}
+			}
+			return true
+		})
+	}
+	sort.Strings(out.Escapes)
+	{
+		w := out.Escapes[:0]
+		for i, x := range out.Escapes {
+			if i == 0 || x != out.Escapes[i-1] {
+				w = append(w, x)
+			}
+		}
+		out.Escapes = w
 	}
 	sort.Strings(out.Writes)
 	// de-duplicate
